@@ -224,13 +224,15 @@ class Replayer:
                     elif op == "SimulateTable" and type(model).__name__ != "LogisticModel":
                         pass
                     elif op == "SimulateTable":
-                        tab = pd.DataFrame({"ID": [11, 11, 12, 12, 12], "TIME": [70.0, 71.5, 68.25, 69.0, 72.125]})
+                        # (a caller's table as it comes: individuals interleaved, ages not in order, an index that is not 0..n-1)
+                        tab = pd.DataFrame({"ID": [12, 11, 12, 11, 12], "TIME": [72.125, 71.5, 68.25, 70.0, 69.0]}, index=[5, 3, 9, 1, 7])
                         vp = {"visit_type": "dataframe", "df_visits": tab}
                         tsnap, dsnap = tab.copy(deep=True), list(tab.dtypes)
                         res = model.simulate(algorithm="simulate", features=list(model.features), visit_parameters=vp, seed=SEED_BASE + call[1])
                         df_sim = res.data.to_dataframe()
                         result = _h(df_sim[list(model.features)].values, df_sim["TIME"].values)
-                        inputs_ok = tab.equals(tsnap) and list(tab.dtypes) == dsnap and list(tab.columns) == list(tsnap.columns) and vp["df_visits"] is tab
+                        inputs_ok = tab.equals(tsnap) and list(tab.dtypes) == dsnap and list(tab.columns) == list(tsnap.columns) and vp["df_visits"] is tab \
+                            and list(tab.index) == list(tsnap.index)
                     elif op == "Simulate":
                         vp = {"patient_number": 3, "visit_type": "random", "first_visit_mean": 0.0, "first_visit_std": 0.4,
                               "time_follow_up_mean": 4, "time_follow_up_std": 0.5, "distance_visit_mean": 1.0,
